@@ -26,7 +26,8 @@ CONSTANT Grid        \* set of instances [ps, k, m, maxsup]
 
 J(ps, k, m, ms) == [ps |-> ps, k |-> k, m |-> m, maxsup |-> ms]
 GridQuick == { J(<<2>>, 4, 4, 3), J(<<2, 2>>, 3, 2, 2), J(<<2, 2>>, 2, 4, 3), J(<<4>>, 3, 4, 2),
-               J(<<2, 4>>, 2, 2, 2), J(<<2, 2, 2>>, 2, 2, 2), J(<<1>>, 4, 4, 3) }
+               J(<<2, 4>>, 2, 2, 2), J(<<2, 2, 2>>, 2, 2, 2), J(<<1>>, 4, 4, 3),
+               J(<<2, 4>>, 3, 2, 2) }   \* mixed ploidy with two ALTs: dosage and frequency rank them differently
 GridThorough == GridQuick \cup
               { J(<<2, 2>>, 3, 4, 3), J(<<2>>, 4, 8, 3), J(<<4>>, 3, 8, 3), J(<<4, 2>>, 3, 2, 2),
                 J(<<2, 2, 2>>, 3, 2, 1), J(<<6>>, 2, 8, 3), J(<<2, 2>>, 4, 2, 2) }
